@@ -7,8 +7,10 @@ import (
 	"math/big"
 	"math/rand/v2"
 	"sort"
+	"strconv"
 	"strings"
 	"sync"
+	"unicode"
 
 	"verif/harness/internal/gen"
 	"verif/harness/internal/model"
@@ -463,12 +465,105 @@ var kC11Cons = run.NewKind("c11.consumer", func(c *run.Ctx, t c11Cons) *run.Fail
 				return run.Failf("gojq --tab . key order: %s (exit %d), want keys in order %v", run.Clip(string(r.Stdout)), r.Code, keys)
 			}
 			c.Count("cli_key_order_runs", 2)
+			// YAML output is an output too: give every key its rank as value and read the ranks off the line ends
+			ranked := map[string]any{}
+			for i, k := range keys {
+				ranked[k] = i
+			}
+			rb, _ := gojq.Marshal(ranked)
+			for _, args := range [][]string{{"--yaml-output", "."}, {"--yaml-output", "{o: ., l: [.]}"}} {
+				r = run.CLI(run.CLIOpt{Args: args, Stdin: rb})
+				if r.TimedOut || r.StartErr != nil {
+					c.Inconclusive("cli-timeout")
+					return nil
+				}
+				var ranks []int
+				for _, ln := range strings.Split(string(r.Stdout), "\n") {
+					if i := strings.LastIndex(ln, ": "); i >= 0 {
+						if n, err := strconv.Atoi(strings.TrimSpace(ln[i+2:])); err == nil {
+							ranks = append(ranks, n)
+						}
+					}
+				}
+				want := len(keys) * len(args[1:]) // "." prints the object once, the second program twice
+				if args[1] != "." {
+					want = 2 * len(keys)
+				}
+				bad := r.Code != 0 || len(ranks) != want
+				for i := 1; !bad && i < len(ranks); i++ {
+					bad = ranks[i] != (ranks[i-1]+1)%len(keys)
+				}
+				if bad {
+					f := run.Failf("gojq %v writes the keys %v in rank order %v (exit %d); code point order is 0..%d:\n%s", args, keys, ranks, r.Code, len(keys)-1, run.Clip(string(r.Stdout)))
+					// known finding D34: the YAML encoder sorts the keys of a map "naturally" (digit runs by value,
+					// letters before other characters); recognised by comparing with a transcription of that order
+					if r.Code == 0 && len(ranks) == want {
+						nat := append([]string{}, keys...)
+						sort.SliceStable(nat, func(i, j int) bool { return c11YAMLNaturalLess(nat[i], nat[j]) })
+						same := true
+						for i, rk := range ranks {
+							same = same && rk < len(keys) && keys[rk] == nat[i%len(keys)]
+						}
+						if same {
+							f.Sig = "c11.yaml-output:keys-in-the-encoder's-natural-order"
+						}
+					}
+					return f
+				}
+			}
+			c.Count("cli_yaml_key_order_runs", 2)
 		}
 	default:
 		return run.Failf("unknown consumer %q", t.Fn)
 	}
 	return nil
 })
+
+// c11YAMLNaturalLess transcribes the key order of the YAML encoder (go-yaml sorter.go, string keys).
+func c11YAMLNaturalLess(a, b string) bool {
+	ar, br := []rune(a), []rune(b)
+	digits := false
+	for i := 0; i < len(ar) && i < len(br); i++ {
+		if ar[i] == br[i] {
+			digits = unicode.IsDigit(ar[i])
+			continue
+		}
+		al, bl := unicode.IsLetter(ar[i]), unicode.IsLetter(br[i])
+		if al && bl {
+			return ar[i] < br[i]
+		}
+		if al || bl {
+			if digits {
+				return al
+			}
+			return bl
+		}
+		var ai, bi int
+		var an, bn int64
+		if ar[i] == '0' || br[i] == '0' {
+			for j := i - 1; j >= 0 && unicode.IsDigit(ar[j]); j-- {
+				if ar[j] != '0' {
+					an, bn = 1, 1
+					break
+				}
+			}
+		}
+		for ai = i; ai < len(ar) && unicode.IsDigit(ar[ai]); ai++ {
+			an = an*10 + int64(ar[ai]-'0')
+		}
+		for bi = i; bi < len(br) && unicode.IsDigit(br[bi]); bi++ {
+			bn = bn*10 + int64(br[bi]-'0')
+		}
+		if an != bn {
+			return an < bn
+		}
+		if ai != bi {
+			return ai < bi
+		}
+		return ar[i] < br[i]
+	}
+	return len(ar) < len(br)
+}
 
 // sameJSONKeyOrder decodes the top-level object's keys in textual order.
 func sameJSONKeyOrder(text string, keys []string) bool {
